@@ -248,11 +248,11 @@ pub fn gen_v1(t: &mut Tape) -> Case {
             p.proto = gen::corrupt_word(t, &w);
         }
         "keyword" => {
-            p.keyword = t.pick(&["proxy", "Proxy", "PROX", "PROXYY", "", "PROXY\0", "XPROXY", "PROXI", "PR0XY", "P", "PROXY\t", "\u{ff30}ROXY", "PROXY\n"]).as_bytes().to_vec();
+            p.keyword = t.pick(&["proxy", "Proxy", "PROX", "PROXYY", "", "PROXY\0", "XPROXY", "PROXI", "PR0XY", "P", "PROXY\t", "\u{ff30}ROXY", "PROXY\n", "\u{feff}PROXY", "\u{200b}PROXY", "\u{a0}PROXY", "\0PROXY", "PROXY\u{feff}", "P\u{200b}ROXY", "\u{feff}\u{feff}PROXY", "\u{2060}PROXY"]).as_bytes().to_vec();
         }
         "protocol" => {
             p.proto = t
-                .pick(&["tcp4", "tcp6", "TCP", "TCP5", "TCP44", "TCP4x", "unknown", "UNKNOW", "UNKNOWNN", "", "UDP4", "T", "U", "Tcp6", "TCP\u{ff14}", "TCP4\0", "\nTCP4"])
+                .pick(&["tcp4", "tcp6", "TCP", "TCP5", "TCP44", "TCP4x", "unknown", "UNKNOW", "UNKNOWNN", "", "UDP4", "T", "U", "Tcp6", "TCP\u{ff14}", "TCP4\0", "\nTCP4", "\u{feff}TCP4", "TCP4\u{200b}", "\u{a0}TCP6", "TCP\u{200b}6", "\u{feff}UNKNOWN"])
                 .as_bytes()
                 .to_vec();
         }
